@@ -1,4 +1,57 @@
-(* C04 placeholder: statements follow *)
-From Gws Require Import Lib.Base.
-Theorem C04_placeholder : True. Proof. exact I. Qed.
-Print Assumptions C04_placeholder.
+(* C04 - No input from the peer can crash, hang or over-allocate the endpoint (modelled part: the read loop).
+   For EVERY byte string - not only frame sequences - the reader model never reaches a Go panic (slice bounds in
+   readMessage, index in MaskXOR), never runs out of fuel |bytes|+1 (every iteration consumes at least two bytes,
+   so the loop cannot spin on input it already has), and always ends in one of the terminal outcomes that make
+   ReadLoop report closure and return (stream ended, failed with a status, peer close).
+   Hypothesis limit_ok: 0 <= ReadMaxPayloadSize and ReadMaxPayloadSize + 9 <= 2^31; without it the uint32 rounding
+   in BufferPool.Get makes the model panic: C04_large_limit_refuted (finding D12). *)
+From Gws Require Import Lib.Base Model.Header Model.Pool Model.CloseCode Model.Reader Proofs.ReaderProofs.
+Local Open Scope N_scope.
+
+Theorem C04_never_panics_terminates :
+  forall (utf8_valid : list N -> bool) (inflate : list N -> list N -> Z -> option (list N))
+         (W : Type) (wdict : W -> list N) (wwrite : W -> list N -> W),
+  (forall d s l out, inflate d s l = Some out -> (Z.of_nat (length out) <= l)%Z) ->
+  forall c, limit_ok c -> forall fuel st bs, wf_bytes bs -> (length bs < fuel)%nat ->
+  let '(evs, o) := read_stream utf8_valid inflate W wdict wwrite fuel c st bs in
+  o <> OPanic W /\ o <> OFuel W /\ Forall (ev_small c) evs.
+Proof. intros u i W wd ww Hi c Hc. exact (read_stream_safe u i W wd ww Hi c Hc). Qed.
+
+(* each call of readMessage that continues has consumed input: the loop makes progress *)
+Theorem C04_progress :
+  forall (utf8_valid : list N -> bool) (inflate : list N -> list N -> Z -> option (list N))
+         (W : Type) (wdict : W -> list N) (wwrite : W -> list N -> W),
+  (forall d s l out, inflate d s l = Some out -> (Z.of_nat (length out) <= l)%Z) ->
+  forall c st bs, wf_bytes bs -> limit_ok c ->
+  step_safe W c bs (read_message utf8_valid inflate W wdict wwrite c st bs).
+Proof. intros u i W wd ww Hi c st bs Hw Hc. exact (read_message_safe u i W wd ww Hi c st bs Hw Hc). Qed.
+
+(* the buffer obtained from the pool is always large enough for the declared payload, for requests up to 2^31 *)
+Theorem C04_pool_cap_sufficient : forall n : Z, (1 <= n <= 2 ^ 31)%Z -> (n <= pool_cap n)%Z.
+Proof. exact pool_cap_ge. Qed.
+
+(* D12: with a read limit of 2^32 a 10-byte header declaring 2^31-1 bytes makes readMessage slice a 128-byte buffer *)
+Theorem C04_large_limit_refuted :
+  exists c bs, wf_bytesb bs = true /\ (0 <= r_limit c)%Z /\
+    read_message (fun _ => true) (fun _ _ _ => None) unit (fun _ => []) (fun w _ => w) c (r_init unit tt) bs
+    = SStop unit [] (OPanic unit).
+Proof.
+  exists {| r_server := false; r_pmd := false; r_limit := 2 ^ 32; r_utf8 := false |},
+         [130; 127; 0; 0; 0; 0; 127; 255; 255; 255].
+  vm_compute. repeat split; try reflexivity. discriminate.
+Qed.
+
+(* non-vacuity: a hostile prefix (64-bit length with the top bit set) is answered with 1009, garbage ends cleanly *)
+Example C04_nonvacuous :
+  let c := {| r_server := true; r_pmd := true; r_limit := 1000; r_utf8 := true |} in
+  limit_ok c
+  /\ read_stream (fun _ => true) (fun _ _ _ => None) unit (fun _ => []) (fun w _ => w) 20 c (r_init unit tt)
+       [130; 255; 128; 0; 0; 0; 0; 0; 0; 0; 1; 2; 3; 4] = ([], OFail unit 1009)
+  /\ read_stream (fun _ => true) (fun _ _ _ => None) unit (fun _ => []) (fun w _ => w) 20 c (r_init unit tt)
+       [137; 130; 1; 2; 3; 4; 96; 96; 129] = ([EvPing [97; 98]], OMore unit (r_init unit tt) true).
+Proof. split; [unfold limit_ok; cbn; lia|]. vm_compute. split; reflexivity. Qed.
+
+Print Assumptions C04_never_panics_terminates.
+Print Assumptions C04_progress.
+Print Assumptions C04_pool_cap_sufficient.
+Print Assumptions C04_large_limit_refuted.
